@@ -234,7 +234,10 @@ type ProprietaryMACCommandPayload struct {
 
 // MarshalBinary marshals the object into a slice of bytes.
 func (p ProprietaryMACCommandPayload) MarshalBinary() ([]byte, error) {
-	return p.Bytes, nil
+	// a copy: the caller may overwrite the returned slice
+	out := make([]byte, len(p.Bytes))
+	copy(out, p.Bytes)
+	return out, nil
 }
 
 // UnmarshalBinary decodes the object from a slice of bytes.
